@@ -121,6 +121,9 @@ impl<Args, T: CallMatch<Args>> NodeProcessor for RemoveFunctionCallProcessor<Arg
                 } else {
                     DoStatement::default().into()
                 };
+
+                // the statement left can be a matching call itself (`assert(assert(value))`)
+                self.process_statement(statement);
             }
         }
     }
@@ -158,6 +161,9 @@ impl<Args, T: CallMatch<Args>> NodeProcessor for RemoveFunctionCallProcessor<Arg
                         Expression::nil()
                     };
                 }
+
+                // the expression left can be a matching call itself (`assert(assert(value))`)
+                self.process_expression(expression);
             }
         }
     }
